@@ -451,6 +451,8 @@ def apply_op(iso, op, sizes):
             iso.force_consistency()
         elif k == 'dup_pvd':
             iso.duplicate_pvd()
+        elif k == 'set_reloc':
+            iso.set_relocated_name(op['name'], op['rr'])
         else:
             raise ValueError('unknown op ' + k)
         return 'ok'
